@@ -118,7 +118,7 @@ Proof.
       destruct (HD2 x Hx) as (_ & _ & Hgt). split; [exact HpNI | exact Hgt].
     - intros w0 lowest0 e burst [Hok0 Hrest0] He Hj. destruct Hf2 as [-> | ->]; [|destruct He].
       apply in_map_iff in He as (x & <- & Hx). destruct (HD2 x Hx) as (_ & _ & Hgt).
-      destruct (join_mode0 c w0 lowest0 (fev x) burst Hmode2 Hj) as [Hb Hrd]. cbn [eblk file_event] in Hb.
+      destruct (join_mode0 c w0 lowest0 (fev x) burst Hmode2 Hj) as (Hb & Hrd & _). cbn [eblk file_event] in Hb.
       destruct (vstate_of_hub U (j_first c) (j_kept c) Hid Huniq Hup Hdecl (w_hub w0) Hok0 Hrd) as [V HV].
       destruct (burst_shape U c Hid Huniq Hup (h_f (w_hub w0)) V (bnum x) burst HV Hb)
         as (hd & sg & y & suf & l0 & _ & _ & _ & _ & Hny & Hmap & Hnew & _).
